@@ -40,3 +40,38 @@ pub mod verif_kani {
         assert!(ok, "C09 apply_keystream = XOR with textbook RC4 keystream, state advanced accordingly");
     }
 }
+
+// C09: the RC4 key schedule is outside both verifiers (closures/cycle for Verus; SAT size for CBMC, DESIGN.md section 9).
+// Its assumed contract `Rc4::new(key) == textbook KSA(key)` is backed only by this BOUNDED differential test.
+#[cfg(all(test, gtker_wow_srp_verif))]
+mod verif_search {
+    use super::*;
+    struct Rng(u64);
+    impl Rng { fn next(&mut self) -> u64 { self.0 ^= self.0 << 13; self.0 ^= self.0 >> 7; self.0 ^= self.0 << 17; self.0 } }
+    fn textbook_ksa(key: &[u8]) -> [u8; 256] {
+        let mut s = [0u8; 256];
+        for i in 0..256 { s[i] = i as u8; }
+        let mut j = 0usize;
+        for i in 0..256 { j = (j + s[i] as usize + key[i % key.len()] as usize) % 256; s.swap(i, j); }
+        s
+    }
+    fn check(key: &[u8]) -> bool { let r = Rc4::new(key); r.state == textbook_ksa(key) && r.i == 0 && r.j == 0 }
+    #[test]
+    fn verif_search_c09_ksa() {
+        let seed = std::env::var("VERIF_SEED").ok().and_then(|s| s.parse::<u64>().ok()).unwrap_or(0) ^ 0x9E3779B97F4A7C15;
+        let count: u64 = std::env::var("VERIF_SEARCH_COUNT").ok().and_then(|s| s.parse().ok()).unwrap_or(10000);
+        let mut rng = Rng(seed);
+        let mut n = 0u64;
+        // RFC 6229 style keys, single non-zero byte keys, all-equal-byte keys, lengths 16 and 20 (and 1..=32)
+        for len in 1..=32usize {
+            for v in [0u8, 1, 0x7f, 0x80, 0xff] { let k = vec![v; len]; n += 1; if !check(&k) { println!("REPLAY-FAIL c09_ksa key={:02x?}", k); return; } }
+            for pos in 0..len { for v in [1u8, 0xff] { let mut k = vec![0u8; len]; k[pos] = v; n += 1; if !check(&k) { println!("REPLAY-FAIL c09_ksa key={:02x?}", k); return; } } }
+            let k: Vec<u8> = (1..=len as u8).collect(); n += 1; if !check(&k) { println!("REPLAY-FAIL c09_ksa key={:02x?}", k); return; }
+        }
+        for _ in 0..count { for len in [16usize, 20] {
+            let k: Vec<u8> = (0..len).map(|_| rng.next() as u8).collect(); n += 1;
+            if !check(&k) { println!("REPLAY-FAIL c09_ksa key={:02x?}", k); return; }
+        } }
+        println!("REPLAY-STATS c09_ksa inputs={} all-ok", n);
+    }
+}
